@@ -13,6 +13,21 @@ from .envctl import MachineryError
 DAMAGES = ['delete-file', 'truncate-file', 'truncate-zero', 'extend-file', 'add-file-existing-dir', 'add-file-new-dir',
            'add-file-top', 'add-file-level1', 'add-empty-leaf', 'add-empty-level1', 'add-empty-nested', 'count+1', 'count-1',
            'size+5', 'size-3', 'partial-debris']
+EMPTY_DAMAGES = ['add-file-new-dir', 'add-file-top', 'add-file-level1', 'add-empty-leaf', 'add-empty-nested', 'count+1', 'count-1',
+                 'size+5', 'size-3', 'partial-debris']      # what can happen to a shard without items (negative counters included)
+
+
+class Raised:
+    def __init__(self, exc):
+        self.message = 'check raised %s' % type(exc).__name__
+
+
+def checked(obj, **kw):
+    """obj.check(**kw), total"""
+    try:
+        return obj.check(**kw)
+    except Exception as exc:
+        return [Raised(exc)]
 
 
 class Observer:
@@ -61,6 +76,9 @@ class Observer:
     def warn_list(self, ws):
         out = []
         for w in ws:
+            if isinstance(w, Raised):
+                out.append(['raised', 0])        # check() itself failed: a result the specification judges
+                continue
             m = str(w.message)
             if m.startswith('unknown file: '):
                 out.append(['unknown-file', self.fid(m[len('unknown file: '):])])
@@ -88,6 +106,9 @@ def run_damage(kind, damages, seed=0, tid=1):
         # more than one page (100) of file-backed items in the damaged cache / shard
         kind = kind[:-6]
         reps = 40
+    empty = kind == 'fanout-empty'      # the damaged shard never received a key (its item counter is 0)
+    if empty:
+        kind = 'fanout'
     rng = random.Random(seed)
     envctl.SeededUrandom(seed).install()
     top = envctl.scratch('chk')
@@ -103,12 +124,14 @@ def run_damage(kind, damages, seed=0, tid=1):
         vals = [200000 + 40 * 100 + 1, 200000 + 36 * 100 + 2, 300000 + 36 * 100 + 4, 5, 100001, 200000 + 44 * 100 + 6, 7,
                 400000 + 40 * 100 + 3]
         for i, v in enumerate(vals * reps):
-            obj.set(i, vm.to_py(v))
+            obj.set(2 * i if empty else i, vm.to_py(v))        # (even integers live in shard 000 of two)
         obj.close()
         con = sqlite3.connect(os.path.join(root, 'cache.db'))
         frows = con.execute('SELECT rowid, filename, size FROM Cache WHERE filename IS NOT NULL ORDER BY rowid').fetchall()
         con.close()
-        if len(frows) < 2:
+        if empty and frows:
+            raise MachineryError('the shard that was to stay empty holds items')
+        if len(frows) < 2 and not empty:
             raise MachineryError('damage target shard has too few file-backed items')
         used = set()
 
@@ -156,8 +179,12 @@ def run_damage(kind, damages, seed=0, tid=1):
                 open(os.path.join(d, 'half-written.val'), 'wb').write(b'B2')
             else:
                 con = sqlite3.connect(os.path.join(root, 'cache.db'))
-                col, delta = (dmg[:-2], int(dmg[-2:])) if dmg[-2] in '+-' else (dmg, 0)
-                con.execute('UPDATE Settings SET value = value + ? WHERE key = ?', (delta, col))
+                if dmg.endswith('=0'):
+                    con.execute('UPDATE Settings SET value = 0 WHERE key = ?', (dmg[:-2],))       # a zeroed counter
+                    delta = 0
+                else:
+                    col, delta = (dmg[:-2], int(dmg[-2:])) if dmg[-2] in '+-' else (dmg, 0)
+                    con.execute('UPDATE Settings SET value = value + ? WHERE key = ?', (delta, col))
                 con.commit()
                 con.close()
         ob = Observer(root)
@@ -184,15 +211,15 @@ def run_damage(kind, damages, seed=0, tid=1):
                 holder.close()
         with warnings.catch_warnings(record=True) as w1:
             warnings.simplefilter('always')
-            r1 = obj.check()
+            r1 = checked(obj)
         if kind == 'fanout':
-            r1 = [w for w in r1 if root in str(w.message) or 'Settings.' in str(w.message)]
+            r1 = [w for w in r1 if root in str(w.message) or 'Settings.' in str(w.message) or isinstance(w, Raised)]
         obs1 = ob.observe(disk)
-        r2 = obj.check(fix=True)
+        r2 = checked(obj, fix=True)
         if kind == 'fanout':
-            r2 = [w for w in r2 if root in str(w.message) or 'Settings.' in str(w.message)]
+            r2 = [w for w in r2 if root in str(w.message) or 'Settings.' in str(w.message) or isinstance(w, Raised)]
         obs2 = ob.observe(disk)
-        r3 = obj.check()
+        r3 = checked(obj)
         obj.close()
         return {'id': tid, 'kind': kind0, 'damages': damages, 'obs0': obs0, 'obs1': obs1, 'obs2': obs2,
                 'warn1': ob.warn_list(r1), 'warn2': ob.warn_list(r2), 'warn3': ob.warn_list(r3), 'ev': [1],
